@@ -7,19 +7,42 @@ def generate(api):
     tree, rel = api.parse("args/default_args_parser.py")
     fn = api.P.find_function(tree, "DefaultArgsParser", "parse", rel)
     reset = {"_arguments": False, "_options": False}
-    for st in fn.body:
-        # only the leading statements count: a reset after the first use would be too late
-        if isinstance(st, ast.Expr) and isinstance(st.value, ast.Constant):
-            continue
-        if (isinstance(st, ast.Assign) and len(st.targets) == 1 and isinstance(st.targets[0], ast.Attribute)
+    cls = [n for n in tree.body if isinstance(n, ast.ClassDef) and n.name == "DefaultArgsParser"][0]
+    methods = {n.name: n for n in cls.body if isinstance(n, ast.FunctionDef)}
+
+    def is_reset(st):
+        return (isinstance(st, ast.Assign) and len(st.targets) == 1 and isinstance(st.targets[0], ast.Attribute)
                 and isinstance(st.targets[0].value, ast.Name) and st.targets[0].value.id == "self"
                 and st.targets[0].attr in reset and isinstance(st.value, ast.Call) and not st.value.args
-                and getattr(st.value.func, "id", None) in ("OrderedDict", "dict")):
+                and not st.value.keywords and getattr(st.value.func, "id", None) in ("OrderedDict", "dict"))
+
+    def mentions_self(st):
+        return any(isinstance(n, ast.Name) and n.id == "self" for n in ast.walk(st))
+
+    def docstring(st):
+        return isinstance(st, ast.Expr) and isinstance(st.value, ast.Constant)
+
+    for st in fn.body:
+        # only the statements before the first use of the parser's state count: a reset after it would be too late
+        if docstring(st) or not mentions_self(st):
+            continue
+        if is_reset(st):
             reset[st.targets[0].attr] = True
             continue
+        # a helper `self._x()` whose whole body is such resets is read through (one level)
+        if (isinstance(st, ast.Expr) and isinstance(st.value, ast.Call) and not st.value.args and not st.value.keywords
+                and isinstance(st.value.func, ast.Attribute) and isinstance(st.value.func.value, ast.Name)
+                and st.value.func.value.id == "self"):
+            helper = methods.get(st.value.func.attr)
+            body = [x for x in helper.body if not docstring(x)] if helper is not None else None
+            if body and all(is_reset(x) for x in body):
+                for x in body:
+                    reset[x.targets[0].attr] = True
+                continue
+            raise api.P.Untranslatable("%s:%d: parse() starts by calling self.%s(), whose effect on the collected "
+                                       "values is not read" % (rel, st.lineno, st.value.func.attr))
         break
     # every other attribute of self assigned anywhere in the class is hidden state the model must know about
-    cls = [n for n in tree.body if isinstance(n, ast.ClassDef) and n.name == "DefaultArgsParser"][0]
     attrs = set()
     for n in ast.walk(cls):
         if isinstance(n, ast.Attribute) and isinstance(n.value, ast.Name) and n.value.id == "self" and isinstance(n.ctx, ast.Store):
